@@ -292,7 +292,19 @@ pub(crate) fn solve_expression(
                                         Value::Int(0)
                                     }
                                 }
-                                Value::Float(x) => Value::Int(x.round() as i64),
+                                Value::Float(x) => {
+                                    let x = x.round();
+                                    // -2^63 <= x < 2^63, which also rules out NaN and infinities
+                                    if x >= i64::MIN as f64 && x < -(i64::MIN as f64) {
+                                        Value::Int(x as i64)
+                                    } else {
+                                        debug!(
+                                            "evaluating false, could not cast left hand side for {} - {}",
+                                            expression, x
+                                        );
+                                        return SolverResult::False;
+                                    }
+                                }
                                 Value::Int(x) => Value::Int(x),
                                 Value::String(x) => match x.parse::<i64>() {
                                     Ok(i) => Value::Int(i),
@@ -435,7 +447,19 @@ pub(crate) fn solve_expression(
                                         Value::Int(0)
                                     }
                                 }
-                                Value::Float(x) => Value::Int(x.round() as i64),
+                                Value::Float(x) => {
+                                    let x = x.round();
+                                    // -2^63 <= x < 2^63, which also rules out NaN and infinities
+                                    if x >= i64::MIN as f64 && x < -(i64::MIN as f64) {
+                                        Value::Int(x as i64)
+                                    } else {
+                                        debug!(
+                                            "evaluating false, could not cast right hand side for {} - {}",
+                                            expression, x
+                                        );
+                                        return SolverResult::False;
+                                    }
+                                }
                                 Value::Int(x) => Value::Int(x),
                                 Value::String(x) => match x.parse::<i64>() {
                                     Ok(i) => Value::Int(i),
